@@ -32,6 +32,9 @@ type patSource struct {
 	size    int64
 	islands []island // nil: fully patterned
 	patches []patch  // explicit bytes planted at offsets (signatures)
+
+	sortOnce sync.Once
+	sorted   []island
 }
 
 type patch struct {
@@ -56,12 +59,35 @@ func (s *patSource) inIsland(o int64) bool {
 	if s.islands == nil {
 		return true
 	}
+	if len(s.islands) > 16 {
+		// many islands (multi-extent files of terabytes): they are kept sorted by offset (see sortIslands)
+		s.sortOnce.Do(s.sortIslands)
+		i := sort.Search(len(s.sorted), func(i int) bool { return s.sorted[i].off+s.sorted[i].n > o })
+		return i < len(s.sorted) && o >= s.sorted[i].off
+	}
 	for _, is := range s.islands {
 		if o >= is.off && o < is.off+is.n {
 			return true
 		}
 	}
 	return false
+}
+
+func (s *patSource) sortIslands() {
+	s.sorted = append(s.sorted[:0], s.islands...)
+	sort.Slice(s.sorted, func(i, j int) bool { return s.sorted[i].off < s.sorted[j].off })
+	// overlapping islands are merged so that "first island ending after o" decides
+	out := s.sorted[:0]
+	for _, is := range s.sorted {
+		if len(out) > 0 && is.off <= out[len(out)-1].off+out[len(out)-1].n {
+			if e := is.off + is.n; e > out[len(out)-1].off+out[len(out)-1].n {
+				out[len(out)-1].n = e - out[len(out)-1].off
+			}
+			continue
+		}
+		out = append(out, is)
+	}
+	s.sorted = out
 }
 
 func (s *patSource) byteAt(o int64) byte {
